@@ -44,6 +44,12 @@ def run(rep, tier):
     r4(prog, rep, sch)
     r5(prog, rep, sch)
     r6(prog, rep)
+    # which X-points the grid topology accounts for (a null inside the gridded range that is
+    # dropped gives a malformed grid without any error): rule instances of C19.R4
+    from ..report import Premise
+    from . import c19
+    rep.rule("R7", "premise: X-point selection and topology choice (C19.R4)")
+    c19.r4(prog, Premise(rep, "R7", "C19"))
     rep.undecided("finiteness and positivity of written values; success of the numerics on the shipped examples")
     return __doc__
 
